@@ -13,6 +13,7 @@ import (
 	"runtime/pprof"
 	"sort"
 	"strconv"
+	_ "time/tzdata" // the zone database travels with the binary (environment variants set TZ)
 
 	"verifmc/engine"
 	"verifmc/props"
@@ -88,6 +89,9 @@ func main() {
 	if *cpuprof != "" {
 		f, _ := os.Create(*cpuprof)
 		pprof.StartCPUProfile(f)
+	}
+	if f := os.Getenv("VERIF_FATAL_LOG"); f != "" {
+		r.ReportFatal(f)
 	}
 	ck.Run(r)
 	if *cpuprof != "" {
